@@ -40,15 +40,17 @@ type genRes struct {
 }
 
 type simGen struct {
-	w         *World
-	mu        sync.Mutex
-	calls     int
-	failed    int
-	rangeFull int // the library's own generator found no free port
-	nextEven  int
-	dialDelay time.Duration // AllocateConn takes this long (virtual) before the peer answers
-	made      []*genRes
-	conns     []allocation.AllocateConnConfig
+	w          *World
+	mu         sync.Mutex
+	calls      int
+	failed     int
+	rangeFull  int // the library's own generator found no free port
+	nextEven   int
+	nextOdd    int
+	port0Calls int
+	dialDelay  time.Duration // AllocateConn takes this long (virtual) before the peer answers
+	made       []*genRes
+	conns      []allocation.AllocateConnConfig
 	// inner, when set, is one of the library's own relay address generators (on simnet's
 	// transport.Net): UDP relay sockets come from it, simGen only keeps the books
 	inner turn.RelayAddressGenerator
@@ -127,9 +129,17 @@ func (g *simGen) AllocatePacketConn(conf turn.AllocateListenerConfig) (net.Packe
 	} else {
 		// ephemeral relay ports are even, so that the port after an EVEN-PORT allocation is
 		// not handed to somebody else before its RESERVATION-TOKEN is used
+		// ... except every third one, which is odd and comes from a range of its own (a kernel
+		// hands out either parity; the probing for an even port must cope with that)
+		g.port0Calls++
 		for try := 0; try < 64; try++ {
-			g.nextEven += 2
-			s, err = g.w.net.BindUDP(conf.Network, ip, 40000+g.nextEven%20000)
+			if g.port0Calls%3 == 0 {
+				g.nextOdd += 2
+				s, err = g.w.net.BindUDP(conf.Network, ip, 30001+g.nextOdd%8000)
+			} else {
+				g.nextEven += 2
+				s, err = g.w.net.BindUDP(conf.Network, ip, 40000+g.nextEven%20000)
+			}
 			if err == nil {
 				break
 			}
